@@ -5,7 +5,12 @@ Lean: Model/Bytes.lean, Proofs/Bytes.lean, Props/C17.lean; driver `drv_byt`.
 Real side: `pack_file` through `MetadorContainer` over both drivers (`h5py.File`, `IH5Record`)
 on boundary byte strings, followed by container histories that keep the nodes (IH5 patch
 boundaries, close/reopen read-only and writable, copy and move of datasets and groups,
-`merge_files`, packing further files, deleting other nodes).
+`merge_files`, packing further files, deleting datasets and groups, embedding another file at a
+path that held a file earlier in the same session (deleted, moved away or discarded with its
+patch), discarding an open IH5 patch and doing it again differently, copy/move onto such freed
+paths). Reads are either done at every node after every step or (sparse histories) only by
+explicit `read` steps, at reopen and at the end, so that both "read before" and "never read
+before" orders occur.
 
 Oracle (needs no model): after every step, at every node that holds an embedded file, on both
 drivers: bytes of `node[()]` == source bytes, `core.file` `contentSize == len(bytes)` and
@@ -83,14 +88,97 @@ def _exc(e):
     return "err " + type(e).__name__
 
 
+def _prefixes(p):
+    parts = p.split("/")
+    return ["/".join(parts[:i]) for i in range(1, len(parts))]
+
+
+def _below(a, p):
+    return p == a or p.startswith(a + "/")
+
+
+class _Tree:
+    """expected layout of one container: datasets (path -> content) and groups (also empty ones).
+    Used by the generator (content = file index) and by the real-code runner (content = bytes)."""
+
+    def __init__(self, ds=None, grps=None):
+        self.ds, self.grps = dict(ds or {}), set(grps or ())
+
+    def clone(self):
+        return _Tree(self.ds, self.grps)
+
+    def occupied(self, p):
+        """creating a node at p is not possible (p exists, or a parent of p is a dataset)"""
+        return p in self.ds or p in self.grps or any(q in self.ds for q in _prefixes(p))
+
+    def under(self, a):
+        return {p: v for p, v in self.ds.items() if _below(a, p)}
+
+    def put(self, p, v):
+        self.ds[p] = v
+        self.grps.update(_prefixes(p))
+
+    def copy(self, a, b):
+        for p, v in self.under(a).items():
+            self.put(b + p[len(a):], v)
+        for g in [g for g in self.grps if _below(a, g)]:
+            self.grps.add(b + g[len(a):])
+        self.grps.update(_prefixes(b))
+
+    def remove(self, a):
+        for p in self.under(a):
+            del self.ds[p]
+        self.grps -= {g for g in self.grps if _below(a, g)}
+
+    def move(self, a, b):
+        self.copy(a, b)
+        # what was below a is gone, what was copied to b stays (b is never below a)
+        self.ds = {p: v for p, v in self.ds.items() if not _below(a, p)}
+        self.grps = {g for g in self.grps if not _below(a, g)}
+
+
 class _Side:
     """one container (one driver) + what it is expected to hold"""
 
     def __init__(self, drv, top):
         self.drv, self.top, self.gen = drv, top, 0
-        self.expect = {}  # dataset path -> bytes
+        self.tree = _Tree()  # .ds: dataset path -> bytes
+        self.snap = None     # expectation at the last commit (IH5 patch boundary); None = nothing committed yet
         self.name = "c-%s" % drv
         self.mc = self._open("w")
+
+    @property
+    def expect(self):
+        return self.tree.ds
+
+    def committed(self):
+        """the state now is what `discard` returns to. IH5: the caller has just committed a patch;
+        plain HDF5 has no patches: keep a copy of the flushed file."""
+        import shutil
+
+        self.snap = self.tree.clone()
+        if self.drv == "h5":
+            self.mc.flush()
+            shutil.copyfile(self._path() + ".h5", self._path() + ".snap")
+
+    def discard(self):
+        """IH5: throw away the open patch and start a new one in the same session (same record
+        object); the container wrapper is built again over the record, its index of metadata
+        objects describes the discarded state. Plain HDF5: go back to the copy."""
+        import shutil
+
+        from metador_core.container import MetadorContainer
+
+        if self.drv == "ih5":
+            rec = self.mc.__wrapped__
+            rec.discard_patch()
+            rec.create_patch()
+            self.mc = MetadorContainer(rec)
+        else:
+            self.mc.close()
+            shutil.copyfile(self._path() + ".snap", self._path() + ".h5")
+            self.mc = self._open("r+")
+        self.tree = self.snap.clone()
 
     def _path(self):
         import os
@@ -125,25 +213,27 @@ class _Side:
             oracle.append(dict(kind="dataset-set-differs", driver=self.drv, step=step,
                                unexpected=sorted(set(found) - set(self.expect))[:3], missing=sorted(set(self.expect) - set(found))[:3]))
         for p, bs in self.expect.items():
-            if p not in found:
-                continue
-            n = found[p]
-            try:
-                got = _unwrap(n[()])
-                m = n.meta.get("core.file")
-            except Exception as e:  # noqa: BLE001
-                oracle.append(dict(kind="read-fails", driver=self.drv, step=step, path=p, exc=type(e).__name__, content=bs.hex()))
-                continue
-            if got != bs:
-                oracle.append(dict(kind="bytes-differ", driver=self.drv, step=step, path=p, content=bs.hex(),
-                                   got=got.hex() if isinstance(got, bytes) else "not a byte string"))
-            if m is None:
-                oracle.append(dict(kind="file-metadata-missing", driver=self.drv, step=step, path=p, content=bs.hex()))
-                continue
-            if m.contentSize != len(bs):
-                oracle.append(dict(kind="contentSize-differs", driver=self.drv, step=step, path=p, content=bs.hex(), got=int(m.contentSize)))
-            if str(m.sha256).lower() != hashlib.sha256(bs).hexdigest():
-                oracle.append(dict(kind="sha256-differs", driver=self.drv, step=step, path=p, content=bs.hex(), got=str(m.sha256)))
+            if p in found:
+                self.check_node(step, oracle, p, found[p], bs)
+
+    def check_node(self, step, oracle, p, n, bs):
+        """one embedded file, read fully: bytes and file metadata against the source bytes"""
+        try:
+            got = _unwrap(n[()])
+            m = n.meta.get("core.file")
+        except Exception as e:  # noqa: BLE001
+            oracle.append(dict(kind="read-fails", driver=self.drv, step=step, path=p, exc=type(e).__name__, content=bs.hex()))
+            return
+        if got != bs:
+            oracle.append(dict(kind="bytes-differ", driver=self.drv, step=step, path=p, content=bs.hex(),
+                               got=got.hex() if isinstance(got, bytes) else "not a byte string"))
+        if m is None:
+            oracle.append(dict(kind="file-metadata-missing", driver=self.drv, step=step, path=p, content=bs.hex()))
+            return
+        if m.contentSize != len(bs):
+            oracle.append(dict(kind="contentSize-differs", driver=self.drv, step=step, path=p, content=bs.hex(), got=int(m.contentSize)))
+        if str(m.sha256).lower() != hashlib.sha256(bs).hexdigest():
+            oracle.append(dict(kind="sha256-differs", driver=self.drv, step=step, path=p, content=bs.hex(), got=str(m.sha256)))
 
     def close(self):
         try:
@@ -156,7 +246,7 @@ def _pack(side, src, target, bs, oracle, step, out=None):
     """pack_file on one side; maintains the expectation; returns outcome string"""
     from metador_core.packer.utils import pack_file
 
-    exists = target in side.expect or any(p.startswith(target + "/") for p in side.expect) or any(target.startswith(p + "/") for p in side.expect)
+    exists = side.tree.occupied(target)
     try:
         pack_file(side.mc, src, target=target)
         res = "ok"
@@ -169,12 +259,15 @@ def _pack(side, src, target, bs, oracle, step, out=None):
     elif marker:
         if res == "ok":
             oracle.append(dict(kind="deletion-marker-stored-silently", driver=side.drv, step=step, path=target, content=bs.hex()))
-            side.expect[target] = bs
+            side.tree.put(target, bs)
+        else:
+            # whether the refused call left parent groups behind is not the property's business
+            side.tree.grps.update(g for g in _prefixes(target) if g in side.mc)
     else:
         if res != "ok":
             oracle.append(dict(kind="valid-content-rejected", driver=side.drv, step=step, path=target, content=bs.hex(), exc=res))
         else:
-            side.expect[target] = bs
+            side.tree.put(target, bs)
     return res
 
 
@@ -193,6 +286,10 @@ def impl(case):
         src = os.path.join(top, "src file.bin")
         link = os.path.join(top, "src-link")
         os.symlink("src file.bin", link)
+        sparse = bool(case.get("sparse"))  # read only at `read` steps, at reopen and at the end
+        seen, prev = set(), {}             # paths that held an embedded file at some time / its last content there
+        if sparse:
+            tags.add("sparse-reads")
         try:
             for step, op in enumerate(case["ops"]):
                 try:
@@ -202,7 +299,15 @@ def impl(case):
                         with open(src, "wb") as f:
                             f.write(bs)
                         for s in sides:
-                            _pack(s, link if op[3] else src, op[2], bs, oracle, step)
+                            if _pack(s, link if op[3] else src, op[2], bs, oracle, step) != "ok":
+                                continue
+                            if op[2] in seen:
+                                tags.add("path-reused")
+                                if prev.get((s.drv, op[2])) not in (None, bs):
+                                    tags.add("path-reused-other-content")
+                            prev[(s.drv, op[2])] = bs
+                        if any((s.drv, op[2]) in prev for s in sides):
+                            seen.add(op[2])
                         n = len(bs)
                         tags.add("len=%s" % (n if n in (0, 1) else "63-65" if 63 <= n <= 65 else "127-129" if 127 <= n <= 129 else "4095-4097" if 4095 <= n <= 4097 else "other"))
                         if bs.endswith(b"\0"):
@@ -218,9 +323,17 @@ def impl(case):
                             if s.drv == "ih5":
                                 s.mc.__wrapped__.commit_patch()
                                 s.mc.__wrapped__.create_patch()
-                            else:
-                                s.mc.flush()
+                            s.committed()
                         tags.add("patch-boundary")
+                    elif k == "discard":
+                        # only a patch can be discarded, not the base container of a fresh record
+                        if all(s.snap is not None for s in sides):
+                            for s in sides:
+                                dropped = set(s.expect) - set(s.snap.ds)
+                                s.discard()
+                                if dropped:
+                                    tags.add("discard-embedded")
+                            tags.add("discard-patch")
                     elif k == "reopen":
                         for s in sides:
                             s.mc.close()
@@ -228,39 +341,42 @@ def impl(case):
                             s.check("%d:read-only" % step, oracle)
                             s.mc.close()
                             s.mc = s._open("r+")
+                            s.committed()
                         tags.add("reopen")
                     elif k == "merge":
                         for s in sides:
-                            if s.drv != "ih5":
-                                continue
-                            rec = s.mc.__wrapped__
-                            rec.commit_patch()
-                            s.gen += 1
-                            newname = "m%d-ih5" % s.gen
-                            rec.merge_files(os.path.join(top, newname))
-                            s.mc.close()
-                            s.name = newname
-                            s.mc = s._open("r+")
+                            if s.drv == "ih5":
+                                rec = s.mc.__wrapped__
+                                rec.commit_patch()
+                                s.gen += 1
+                                newname = "m%d-ih5" % s.gen
+                                rec.merge_files(os.path.join(top, newname))
+                                s.mc.close()
+                                s.name = newname
+                                s.mc = s._open("r+")
+                            s.committed()
                         tags.add("merge")
                     elif k in ("copy", "move"):
                         a, b = op[1], op[2]
                         for s in sides:
-                            moved = {p: v for p, v in s.expect.items() if p == a or p.startswith(a + "/")}
+                            moved = s.tree.under(a)
                             if not moved and a not in s.mc:
                                 continue  # node absent on this side (marker file on IH5)
+                            if s.tree.occupied(b) or _below(a, b):
+                                continue  # not a valid step on this side (can only happen in a reduced history)
                             try:
                                 getattr(s.mc, k)(a, b)
                             except Exception as e:  # noqa: BLE001
                                 oracle.append(dict(kind="history-step-fails", driver=s.drv, step=step, op=op, exc=type(e).__name__, msg=str(e)[:100]))
                                 continue
-                            for p, v in moved.items():
-                                s.expect[b + p[len(a):]] = v
-                                if k == "move":
-                                    del s.expect[p]
+                            getattr(s.tree, k)(a, b)
+                            if moved and b in seen:
+                                tags.add("path-reused")
+                            seen.update(b + p[len(a):] for p in moved)
                         tags.add(k + ("-group" if op[3] else "-dataset"))
                     elif k == "del":
                         for s in sides:
-                            gone = [p for p in s.expect if p == op[1] or p.startswith(op[1] + "/")]
+                            gone = s.tree.under(op[1])
                             if not gone and op[1] not in s.mc:
                                 continue
                             try:
@@ -268,11 +384,19 @@ def impl(case):
                             except Exception as e:  # noqa: BLE001
                                 oracle.append(dict(kind="history-step-fails", driver=s.drv, step=step, op=op, exc=type(e).__name__, msg=str(e)[:100]))
                                 continue
-                            for p in gone:
-                                del s.expect[p]
-                        tags.add("delete-other")
-                    for s in sides:
-                        s.check(step, oracle)
+                            s.tree.remove(op[1])
+                            tags.add("delete-dataset" if op[1] in gone else "delete-group")
+                    elif k == "read":
+                        # read one embedded file fully (the only reads of a sparse history besides reopen / end)
+                        for s in sides:
+                            if op[1] in s.expect:
+                                s.check_node(step, oracle, op[1], s.mc[op[1]], s.expect[op[1]])
+                        tags.add("read-one")
+                    else:
+                        raise ValueError("unknown step %r" % (op,))
+                    if not sparse or step == len(case["ops"]) - 1:
+                        for s in sides:
+                            s.check(step, oracle)
                     common = set(sides[0].expect) & set(sides[1].expect)
                     if len(common) >= 2:
                         tags.add("several-files")
@@ -448,66 +572,114 @@ def gen_hist(rng, cat):
     if rng.random() < 0.5:
         files.append(b"\x7f")
     rng.shuffle(files)
-    ds = {}      # path -> file idx (as expected on the h5 side)
+    st = dict(tree=_Tree(), snap=None)  # layout as expected on the h5 side (content = file index); layout at the last commit
+    ever = set()                        # every path that held an embedded file at some time of the history
     ops = []
     cnt = [0]
+    sparse = rng.random() < 0.3
+
+    def ds():
+        return st["tree"].ds
 
     def fresh(prefix=""):
         cnt[0] += 1
         return "%sn%d" % (prefix, cnt[0])
 
-    def groups():
-        g = set()
-        for p in ds:
-            parts = p.split("/")
-            for i in range(1, len(parts)):
-                g.add("/".join(parts[:i]))
-        return sorted(g)
+    def freed():
+        """paths that held a file earlier (deleted, moved away, discarded) and can hold a node again"""
+        return [p for p in sorted(ever) if not st["tree"].occupied(p)]
 
-    def pack():
-        i = rng.randrange(len(files))
-        g = rng.choice(["", "", "g/", "g/h/", "data.dir/"])
-        t = fresh(g) + rng.choice(["", ".bin", "_x~.dat"])
+    def other(i):
+        """a file with other content than file i, if there is one"""
+        c = [j for j in range(len(files)) if files[j] != files[i]]
+        return rng.choice(c) if c else i
+
+    def pack(t=None, i=None):
+        if t is None:
+            fr = freed()
+            if fr and rng.random() < 0.5:
+                t = rng.choice(fr)
+            else:
+                t = fresh(rng.choice(["", "", "g/", "g/h/", "data.dir/"])) + rng.choice(["", ".bin", "_x~.dat"])
+        if i is None:
+            i = rng.randrange(len(files))
         ops.append(["pack", i, t, rng.random() < 0.2])
-        ds[t] = i
+        st["tree"].put(t, i)
+        ever.add(t)
+        if sparse and rng.random() < 0.6:
+            ops.append(["read", t])
+
+    def commit(k):
+        ops.append([k])
+        st["snap"] = st["tree"].clone()
 
     for _ in range(rng.randrange(2, 5)):
         pack()
-    for _ in range(rng.randrange(4, 12)):
+    for _ in range(rng.randrange(5, 14)):
         r = rng.random()
-        if r < 0.2:
-            ops.append(["boundary"])
-        elif r < 0.32:
-            ops.append(["reopen"])
-        elif r < 0.42:
-            ops.append(["merge"])
-        elif r < 0.55:
+        if sparse and ds() and rng.random() < 0.25:
+            ops.append(["read", rng.choice(sorted(ds()))])
+        if r < 0.16:
+            commit("boundary")
+        elif r < 0.26:
+            commit("reopen")
+        elif r < 0.33:
+            commit("merge")
+        elif r < 0.40:
+            if st["snap"] is None:
+                commit("boundary")
+            else:
+                # throw the open patch away; often the same paths are then filled differently
+                dropped = sorted(set(ds()) - set(st["snap"].ds))
+                was = dict(ds())
+                ops.append(["discard"])
+                st["tree"] = st["snap"].clone()
+                for p in dropped:
+                    if rng.random() < 0.6 and not st["tree"].occupied(p):
+                        pack(p, other(was[p]))
+        elif r < 0.51:
             pack()
-        elif r < 0.62 and ds:
+        elif r < 0.56 and ds():
             # packing onto an existing path must be refused
-            ops.append(["pack", rng.randrange(len(files)), rng.choice(sorted(ds)), False])
-        elif r < 0.9 and ds:
+            ops.append(["pack", rng.randrange(len(files)), rng.choice(sorted(ds())), False])
+        elif r < 0.80 and ds():
             k = rng.choice(["copy", "move"])
-            gs = groups()
+            gs = sorted(st["tree"].grps)
             if gs and rng.random() < 0.35:
                 a, isg = rng.choice(gs), True
             else:
-                a, isg = rng.choice(sorted(ds)), False
-            b = fresh(rng.choice(["", "", "k/", "g/"]))
-            if any(p == b or p.startswith(b + "/") for p in ds) or b.startswith(a + "/"):
+                a, isg = rng.choice(sorted(ds())), False
+            fr = [p for p in freed() if not _below(a, p)]
+            if fr and rng.random() < 0.3:
+                b = rng.choice(fr)
+            else:
+                b = fresh(rng.choice(["", "", "k/", "g/"]))
+            if st["tree"].occupied(b) or _below(a, b):
                 continue
             ops.append([k, a, b, isg])
-            for p in [p for p in ds if p == a or p.startswith(a + "/")]:
-                ds[b + p[len(a):]] = ds[p]
-                if k == "move":
-                    del ds[p]
-        elif len(ds) > 1:
-            p = rng.choice(sorted(ds))
+            getattr(st["tree"], k)(a, b)
+            ever.update(st["tree"].under(b))
+        elif r < 0.89 and ds():
+            # replace an embedded file: remove it (or the group it is in), embed another file at the same path
+            p = rng.choice(sorted(ds()))
+            i = ds()[p]
+            gs = [g for g in _prefixes(p)]
+            ops.append(["del", rng.choice(gs) if gs and rng.random() < 0.25 else p])
+            st["tree"].remove(ops[-1][1])
+            if rng.random() < 0.3:
+                commit("boundary")
+            pack(p, other(i))
+        elif ds():
+            gs = sorted(st["tree"].grps)
+            p = rng.choice(gs) if gs and rng.random() < 0.3 else rng.choice(sorted(ds()))
             ops.append(["del", p])
-            del ds[p]
-    ops.append(["boundary"])
-    ops.append(["reopen"])
-    return dict(kind="hist", files=[f.hex() for f in files], ops=ops)
+            st["tree"].remove(p)
+    commit("boundary")
+    commit("reopen")
+    case = dict(kind="hist", files=[f.hex() for f in files], ops=ops)
+    if sparse:
+        case["sparse"] = True
+    return case
 
 
 def gen_cases(ctx, scale=1.0):
@@ -524,7 +696,7 @@ def gen_cases(ctx, scale=1.0):
         cases.append(dict(kind="bytes", full=not ctx.quick or i == 96, data=[b.hex() for b in one[i:i + step]]))
     for _ in range(int((4 if ctx.quick else 60) * scale)):
         cases.append(dict(kind="bytes", full=True, data=[rand_bytes(rng).hex() for _ in range(8)]))
-    for _ in range(int((40 if ctx.quick else 800) * scale)):
+    for _ in range(int((40 if ctx.quick else 600) * scale)):
         cases.append(gen_hist(rng, cat))
     return cases
 
@@ -544,9 +716,11 @@ def exhaustive_cases():
 def run(ctx):
     ctx.rule = ("cases: (bytes) byte strings -> _h5_wrap_bytes, _is_del_mark, HDF5 round trip through raw h5py.File and raw IH5Record, read-loop chunk "
                 "lengths, pack_file + read through MetadorContainer on both drivers; (hist) 3-6 source files (boundary catalogue: lengths 0,1,63-65,127-129,"
-                "4095-4097, NUL-rich, trailing NULs, high bytes, all 256 values, 7f/7f00/007f, CR/LF) packed into both drivers, then 4-12 random steps "
-                "(patch boundary, reopen r and r+, merge_files, copy/move of datasets and groups, further packs, pack onto existing path, delete other node); "
-                "all embedded files are re-read and compared after every step. Non-trivial = tagged (length class, trailing NUL, marker, step kinds).")
+                "4095-4097, NUL-rich, trailing NULs, high bytes, all 256 values, 7f/7f00/007f, CR/LF) packed into both drivers, then 5-13 random steps "
+                "(patch boundary, reopen r and r+, merge_files, copy/move of datasets and groups also onto paths that held a file before, further packs at fresh "
+                "paths and at paths freed in the same session, pack onto existing path, delete dataset / group, replace = delete + embed another file at the same path, "
+                "discard the open IH5 patch [plain HDF5: back to the file copy of the last boundary] and fill the dropped paths differently); "
+                "all embedded files are re-read and compared after every step, or (30 %, sparse) only at explicit read steps, at reopen and at the end. Non-trivial = tagged (length class, trailing NUL, marker, step kinds).")
     ctx.assumptions += [
         "hashlib: update(a); update(b) == update(a+b) (hypothesis `Streaming` of chunked_digest / file_meta_exact)",
         "HDF5/h5py stores and returns np.void / Empty scalars unchanged (model `h5Store`, compared with h5py on every run)",
@@ -591,6 +765,18 @@ def shrink(ctx, case, detail):
             return any(d.get("kind") == want for d in _oracle(dict(case, ops=ops)))
         ops = core.ddmin(case["ops"], fails, max_tests=40)
         c = dict(case, ops=ops)
+        # drop the files no step uses any more; then try short distinct contents
+        used = sorted({op[1] for op in ops if op[0] == "pack"})
+        c2 = dict(c, files=[case["files"][i] for i in used],
+                  ops=[[op[0], used.index(op[1])] + op[2:] if op[0] == "pack" else op for op in ops])
+        if used and any(d.get("kind") == want for d in _oracle(c2)):
+            c = c2
+            for i in range(len(c["files"])):
+                short = bytes([0x61 + i % 26, 0x30 + i % 10]).hex()
+                if len(c["files"][i]) > len(short):
+                    c3 = dict(c, files=c["files"][:i] + [short] + c["files"][i + 1:])
+                    if any(d.get("kind") == want for d in _oracle(c3)):
+                        c = c3
         ds = [d for d in _oracle(c) if d.get("kind") == want]
         if ds:
             best = (c, ds[0])
